@@ -209,3 +209,11 @@ Example toy_r_ge_n : exists k r s, ecdsa_sign_k toy 5 9 k = Ok (r, s) /\ cn toy 
 Proof.
   exists 3, 35, 11. vm_compute. split; [reflexivity|]. split; [discriminate|reflexivity].
 Qed.
+
+(* The constants written in the model are the constants of the SOURCE: coq/Generated/SrcConsts.v is regenerated
+   from /repo/buidl/*.py by harness/gen_coq_consts.py on every run; the statements are spelled out in
+   Proofs/ConstsTie.v (secp256k1_is_source_stmt). *)
+From V Require Proofs.ConstsTie.
+Theorem C01_constants_match_source : ConstsTie.secp256k1_is_source_stmt.
+Proof. exact ConstsTie.secp256k1_is_source. Qed.
+Print Assumptions C01_constants_match_source.
